@@ -194,8 +194,18 @@ def run_lines(exe, cases, timeout=600, env=None, restart_on_crash=True, big_stac
     n = len(cases)
     while i < n:
         data = '\n'.join(cases[i:]) + '\n'
-        p = subprocess.run([exe] if isinstance(exe, str) else exe, input=data, stdout=subprocess.PIPE,
-                           stderr=subprocess.PIPE, text=True, timeout=timeout, env=env, preexec_fn=_big_stack if big_stack else None)
+        try:
+            p = subprocess.run([exe] if isinstance(exe, str) else exe, input=data, stdout=subprocess.PIPE,
+                               stderr=subprocess.PIPE, text=True, timeout=timeout, env=env, preexec_fn=_big_stack if big_stack else None)
+        except subprocess.TimeoutExpired as e:
+            # a driver that hangs (dead-lock, live-lock) is a dead driver: the case it was working on is reported as such
+            so = e.stdout if isinstance(e.stdout, str) else (e.stdout or b'').decode(errors='replace')
+            lines = so.split('\n')
+            if lines and lines[-1] == '': lines.pop()
+            got = lines[:n - i]; outs += got; i += len(got)
+            if i < n: outs.append('CRASH timeout: no answer within %d s (hung)' % timeout); i += 1
+            if not restart_on_crash: break
+            continue
         lines = p.stdout.split('\n')
         if lines and lines[-1] == '': lines.pop()
         got = lines[:n - i]
